@@ -2,6 +2,7 @@ package props
 
 import (
 	"bufio"
+	"errors"
 	"fmt"
 	"math/rand"
 	"net"
@@ -9,12 +10,15 @@ import (
 	"strconv"
 	"strings"
 	"sync"
+	"sync/atomic"
 	"time"
 
 	"verif/internal/core"
 	"verif/internal/fakes"
 	"verif/internal/rawhttp"
 )
+
+var errSkipped = errors.New("skipped after repeated failures")
 
 var hopByHop = []string{"Connection", "Keep-Alive", "Proxy-Authenticate", "Proxy-Authorization", "TE", "Trailer", "Transfer-Encoding", "Upgrade"}
 
@@ -482,14 +486,22 @@ func C02(r *core.Run) {
 		st  int
 	}
 	results := make(chan res, len(gens))
+	var failures int64
 	for wkr := 0; wkr < workers; wkr++ {
 		wg.Add(1)
 		go func() {
 			defer wg.Done()
-			cl := rawhttp.NewClient(addr, 60*time.Second)
+			cl := rawhttp.NewClient(addr, 30*time.Second)
 			defer cl.Close()
 			for g := range ch {
+				if atomic.LoadInt64(&failures) >= 24 {
+					results <- res{g, errSkipped, 0}
+					continue // the tree is refuted already; do not sit out a time-out per remaining request
+				}
 				m, err := cl.Do(g.wire(), g.Method)
+				if err != nil {
+					atomic.AddInt64(&failures, 1)
+				}
 				st := 0
 				if m != nil {
 					st = m.Status
@@ -506,6 +518,9 @@ func C02(r *core.Run) {
 	close(results)
 	for rs := range results {
 		g := rs.g
+		if rs.err == errSkipped {
+			continue
+		}
 		r.Case(g.Class)
 		if rs.err != nil || rs.st != 200 {
 			// the request did not make it through: that is itself a refutation for a well-formed request
